@@ -56,7 +56,8 @@ class CHECK(Check):
         for _ in range(1500 if tier == "quick" else 40000):
             sds = gen_secdefs(rng)
             lines = [rng.choice(LINE_POOL + (CR_POOL if rng.random() < 0.3 else [])) for _ in range(rng.randint(0, 12))]
-            yield {"secs": sds, "content": "\n".join(lines) + (rng.choice(["\n", "\n", ""]) if lines else "")}
+            bom = "\ufeff" if rng.random() < 0.06 else ""     # a byte-order mark at the start of in-memory content is a character
+            yield {"secs": sds, "content": bom + "\n".join(lines) + (rng.choice(["\n", "\n", ""]) if lines else "")}
 
     def impl(self, case):
         from cfinterface.components.defaultsection import DefaultSection
